@@ -22,6 +22,7 @@ import Kvass.Proofs.LoopFaulty
 import Kvass.Proofs.LoopScrapes
 import Kvass.Proofs.LoopPos
 import Kvass.Proofs.LoopRegime
+import Kvass.Proofs.LoopRegimeN
 
 namespace Kvass.Props.C06
 open Kvass Kvass.Coord Kvass.Spec
@@ -793,8 +794,8 @@ example : ((Loop.cycles (fun x r => x * r / 10) pEnv pW0 [{ assign := [1, 2] }])
 
 /-- **C03 / C06: convergence over any number of cycles, without overload.**  The regime
     (`Loop.Regime`): relief and scale-down switched off, size within [min, max], every discovered
-    target held and every held target discovered, every target on at most two running sidecars and
-    never twice in transfer, sidecar states consistent (`WInv`).  It is kept by every scrape and
+    target held or unplaceable (no successful probe, or too big) and every held target discovered,
+    every target on at most two running sidecars and never twice in transfer, sidecar states consistent (`WInv`).  It is kept by every scrape and
     every fault-free cycle (`C06_regime_invariant`), whatever the scrape counters.  Along any history
     of scrapes and fault-free cycles — any order, any length — in which every copy held at the start
     is scraped at least three times, followed by one more fault-free cycle, the converged state of
@@ -813,7 +814,8 @@ theorem C06_converges_without_overload (swr : Swr) (env : Loop.Env) (w : Loop.Wo
       (Loop.run swr env w (ops ++ [.cycle sc [] false])).shards[i]? = some shi →
       (Loop.run swr env w (ops ++ [.cycle sc [] false])).shards[j]? = some shj →
       (Loop.statusOf shi).has h = true → (Loop.statusOf shj).has h = true → False) ∧
-    (∀ h ∈ w.active, Loop.Held (Loop.run swr env w (ops ++ [.cycle sc [] false])) h) :=
+    (∀ h ∈ w.active, Loop.Held (Loop.run swr env w (ops ++ [.cycle sc [] false])) h ∨
+      Loop.Unplaceable env (Loop.run swr env w (ops ++ [.cycle sc [] false])) h) :=
   Loop.regime_converges_counting swr env w ops sc r hall h3
 
 /-- the regime is an invariant of scrapes, fault-free cycles and sidecar restarts -/
@@ -837,7 +839,8 @@ theorem C06_converges_after_restarts (swr : Swr) (env : Loop.Env) (w : Loop.Worl
       (Loop.run swr env w (pre ++ (ops ++ [.cycle sc [] false]))).shards[i]? = some shi →
       (Loop.run swr env w (pre ++ (ops ++ [.cycle sc [] false]))).shards[j]? = some shj →
       (Loop.statusOf shi).has h = true → (Loop.statusOf shj).has h = true → False) ∧
-    (∀ h ∈ (Loop.run swr env w pre).active, Loop.Held (Loop.run swr env w (pre ++ (ops ++ [.cycle sc [] false]))) h) := by
+    (∀ h ∈ (Loop.run swr env w pre).active, Loop.Held (Loop.run swr env w (pre ++ (ops ++ [.cycle sc [] false]))) h ∨
+      Loop.Unplaceable env (Loop.run swr env w (pre ++ (ops ++ [.cycle sc [] false]))) h) := by
   have r1 := Loop.regime_runR swr env pre w hpre r
   have hrun : Loop.run swr env w (pre ++ (ops ++ [.cycle sc [] false])) =
       Loop.run swr env (Loop.run swr env w pre) (ops ++ [.cycle sc [] false]) := by
@@ -930,7 +933,64 @@ example : Loop.Regime exEnv exYoung := by
   · intro h ha
     simp [exYoung] at ha
     rcases ha with rfl | rfl
-    · exact ⟨1, exYoung.shards[1]!, by rfl, by decide⟩
-    · exact ⟨1, exYoung.shards[1]!, by rfl, by decide⟩
+    · exact Or.inl ⟨1, exYoung.shards[1]!, by rfl, by decide⟩
+    · exact Or.inl ⟨1, exYoung.shards[1]!, by rfl, by decide⟩
+
+/-! ### … and for any number of holders -/
+
+/-- `gcTargets` as a whole, any number of holders: all shards in sync and every copy of a discovered
+    target scraped three times ⇒ after the pass at most one shard still holds it, whatever the number
+    of holders and their states (the load comparison of rule 3 is total, so of two surviving copies
+    one would have deleted the other). -/
+theorem C06_gc_any_multiplicity (o : Opt) (active : List Hash) (ss0 : List SI)
+    (hnd0 : ∀ (k : Nat) (s : SI), ss0[k]? = some s → s.scraping.keys.Nodup)
+    (hall : ∀ (i : Nat) (s : SI), ss0[i]? = some s → s.changeable = true)
+    (h : Hash) (hact : active.contains h = true)
+    (hold : ∀ (i : Nat) (v : St), entry ss0 i h = some v → 3 ≤ v.times) :
+    ∀ k1 k2, k1 ≠ k2 → entry (gc o active ss0) k1 h ≠ none → entry (gc o active ss0) k2 h ≠ none → False :=
+  gc_old_unique o active ss0 hnd0 hall h hact hold
+
+/-- **C03 / C06: convergence without overload for any number of holders.**  `Loop.RegimeN` is the
+    regime of `C06_converges_without_overload` without the restriction to two holders (relief and
+    scale-down off, size within [min, max], every discovered target held, every held target
+    discovered, consistent sidecars); it is kept by scrapes and fault-free cycles.  Along any history
+    of scrapes and fault-free cycles in which every copy held at the start is scraped three times,
+    followed by two more fault-free cycles, the converged state is reached: the first of the two
+    leaves every target on exactly one sidecar, the second makes every copy normal. -/
+theorem C06_converges_any_multiplicity (swr : Swr) (env : Loop.Env) (w : Loop.World) (ops : List Loop.Op)
+    (sc1 sc2 : Sched) (r : Loop.RegimeN env w) (hall : ∀ op ∈ ops, Loop.quietOp op = true)
+    (h3 : ∀ (i : Nat) (sh : Loop.Shard) (h : Hash), w.running[i]? = some sh → (Loop.statusOf sh).has h = true →
+      3 ≤ Loop.scrapeCount ops i h) :
+    let w1 := Loop.run swr env w ops
+    let w3 := Loop.run swr env w (ops ++ [.cycle sc1 [] false, .cycle sc2 [] false])
+    w3.replicas = w1.replicas ∧
+    (∀ (i : Nat) (sh' : Loop.Shard) (h : Hash) (v : St), i < w1.replicas → w3.shards[i]? = some sh' →
+      (Loop.statusOf sh').get h = some v → v.state = .normal) ∧
+    (∀ (i j : Nat) (shi shj : Loop.Shard) (h : Hash), i < w1.replicas → j < w1.replicas → i ≠ j →
+      w3.shards[i]? = some shi → w3.shards[j]? = some shj →
+      (Loop.statusOf shi).has h = true → (Loop.statusOf shj).has h = true → False) ∧
+    (∀ h ∈ w1.active, Loop.Held w3 h ∨ Loop.Unplaceable env w3 h) :=
+  Loop.regimeN_converges_counting swr env w ops sc1 sc2 r hall h3
+
+/-- the N-holder regime is an invariant of scrapes and fault-free cycles -/
+theorem C06_regimeN_invariant (swr : Swr) (env : Loop.Env) (ops : List Loop.Op) (w : Loop.World)
+    (hall : ∀ op ∈ ops, Loop.quietOp op = true) (r : Loop.RegimeN env w) : Loop.RegimeN env (Loop.run swr env w ops) :=
+  Loop.regimeN_run swr env ops w hall r
+
+/-- non-vacuity: three shards all hold target 1, all in transfer (and old): one cycle leaves one copy,
+    still in transfer, the next turns it back to normal; and three normal copies go down to one at once -/
+def exTriple (st : TState) : Loop.World :=
+  { shards := [⟨{ targets := [⟨1, 10, 10, st, 1⟩], status := [(1, { health := .good, series := 10, total := 10, state := st, times := 5 })], idleAt := none }, 7⟩,
+               ⟨{ targets := [⟨1, 10, 10, st, 1⟩], status := [(1, { health := .good, series := 10, total := 10, state := st, times := 4 })], idleAt := none }, 6⟩,
+               ⟨{ targets := [⟨1, 10, 10, st, 1⟩], status := [(1, { health := .good, series := 10, total := 10, state := st, times := 3 })], idleAt := none }, 5⟩],
+    replicas := 3, active := [1], explore := [] }
+
+example : ((Loop.run (fun x r => x * r / 10) exEnv (exTriple .normal) [.cycle {} [] false]).shards.map
+      fun sh => (Loop.statusOf sh).map fun p => (p.1, p.2.state)) = [[(1, .normal)], [], []] ∧
+    ((Loop.run (fun x r => x * r / 10) exEnv (exTriple .inTransfer) [.cycle {} [] false]).shards.map
+      fun sh => (Loop.statusOf sh).map fun p => (p.1, p.2.state)) = [[(1, .inTransfer)], [], []] ∧
+    ((Loop.run (fun x r => x * r / 10) exEnv (exTriple .inTransfer) [.cycle {} [] false, .cycle {} [] false]).shards.map
+      fun sh => (Loop.statusOf sh).map fun p => (p.1, p.2.state)) = [[(1, .normal)], [], []] := by
+  decide
 
 end Kvass.Props.C06
